@@ -161,7 +161,7 @@ def _norm_dim(s):
 
 
 def r4_siblings(rule, root=None):
-    for name in ("zoom", "translate", "begin_translate", "transform_point"):
+    for name in ("zoom", "translate", "begin_translate", "transform_point", "rebase_translate"):
         a, b = vfn("View2", name, root), vfn("View3", name, root)
         if _norm_dim(txt(a["body"])) == _norm_dim(txt(b["body"])):
             rule.ok("View2::%s and View3::%s are the same modulo dimension" % (name, name), file=GUI, line=a["ln"])
@@ -286,6 +286,21 @@ def r7_stale_handle(rule, root=None):
     scale while a drag is stored must refresh (or drop) the handle, or the next drag step re-centres with the old scale"""
     st = A.find_item(GUI, "StructDef", "TranslateHandle", root)
     cached = [f["name"] for f in st["fields"] if f["name"] in ("initial_mat",)]
+    # re-anchoring refreshes everything the handle cached from the view (matrix *and* centre): with only one of
+    # them the next drag step mixes the new matrix with the old centre
+    for ty in ("View2", "View3"):
+        try:
+            fn = vfn(ty, "rebase_translate", root)
+        except A.AnchorLost:
+            continue
+        hp = [A.binding_name(i_["pat"]) for i_ in fn["sig"]["inputs"] if isinstance(i_, dict) and "pat" in i_]
+        hn = hp[0] if hp else "h"
+        ws = {(str(txt(a["left"])), str(txt(a["right"]))) for a in A.find(fn["body"], "Assign")}
+        want = {("%s.initial_mat" % hn, "self.world_to_model()"), ("%s.initial_center" % hn, "self.center")}
+        if want <= ws:
+            rule.ok("%s::rebase_translate refreshes the handle's matrix and centre" % ty, file=GUI, line=fn["ln"])
+        else:
+            rule.bad("%s|rebase" % ty, "%s::rebase_translate must refresh both cached values of the handle (initial_mat = world_to_model(), initial_center = center); it writes %s" % (ty, sorted(ws)), A.where(fn))
     for ty in ("Canvas2", "Canvas3"):
         fn = vfn(ty, "zoom", root)
         t = txt(fn["body"])
@@ -310,5 +325,5 @@ def run(ctx):
     ctx.guarded(r, r5_handles)
     r = ctx.rule("R6", "canvases adopt the image size first, OR their flags, keep drags idempotent", 10)
     ctx.guarded(r, r6_canvases)
-    r = ctx.rule("R7", "zooming during a pan refreshes the handle's cached matrix", 2)
+    r = ctx.rule("R7", "zooming during a pan refreshes the handle's cached matrix", 4)
     ctx.guarded(r, r7_stale_handle)
